@@ -152,6 +152,9 @@ func Install() *Net {
 	n := &Net{Listeners: map[string]*Listener{}}
 	N = n
 	ListenHook = func(network, addr string) (net.Listener, error) {
+		if (network == "tcp" || network == "tcp4" || network == "tcp6") && !hasPort(addr) {
+			return nil, errors.New("vnet: listen " + network + " " + addr + ": missing port in address")
+		}
 		if _, ok := n.Listeners[addr]; ok {
 			return nil, ErrInUse
 		}
@@ -160,6 +163,9 @@ func Install() *Net {
 		return l, nil
 	}
 	DialHook = func(network, addr string) (net.Conn, error) {
+		if (network == "tcp" || network == "tcp4" || network == "tcp6") && !hasPort(addr) {
+			return nil, errors.New("vnet: dial " + network + " " + addr + ": missing port in address")
+		}
 		if n.DialOutcome != nil {
 			c := n.DialOutcome(addr)
 			if c == nil {
@@ -181,6 +187,18 @@ func Install() *Net {
 		return nil, ErrRefused
 	}
 	return n
+}
+
+// hasPort: "host:port" with a non-empty decimal port, as the real resolver demands
+func hasPort(addr string) bool {
+	i := len(addr) - 1
+	for i >= 0 && addr[i] != ':' {
+		if addr[i] < '0' || addr[i] > '9' {
+			return false
+		}
+		i--
+	}
+	return i >= 0 && i < len(addr)-1
 }
 
 // SPHeader is the 8-byte SP handshake for protocol number p.
